@@ -349,6 +349,26 @@ pub fn gen_replay(prop: &str, case: &serde_json::Value) -> Result<Option<String>
         let (_, has_errors) = comp::diagnostics(&db, &[c]);
         return Ok((!has_errors).then(|| format!("injected {inj} accepted")));
     }
+    if let Some(src) = case.get("handwritten_source").and_then(|s| s.as_str()) {
+        // A hand-written program with its meaning written next to it: `main()` without arguments,
+        // the expected return cells as decimal felts.
+        let want: Vec<String> = case["expected_felts"].as_array().map(|a| a.iter().filter_map(|v| v.as_str().map(|s| s.to_string())).collect()).unwrap_or_default();
+        let sierra = match front_end(&Config::DEFAULT, src) {
+            Ok(Ok(p)) => p,
+            Ok(Err(e)) => return Err(format!("handwritten program does not compile: {e}")),
+            Err((loc, msg)) => return Ok(Some(format!("compiler panicked at {loc}: {msg}"))),
+        };
+        let prog = Prog::new(sierra, Some(exec::metadata_config(true, Default::default())))?;
+        let func = prog.runner.find_function("::main").map_err(|e| e.to_string())?.clone();
+        let rec = exec::run(&prog, &func, vec![], Some(crate::execchecks::AMPLE_GAS));
+        return Ok(match &rec.outcome {
+            exec::Outcome::Success(cells) => {
+                let got: Vec<String> = cells.iter().map(|f| f.to_bigint().to_string()).collect();
+                (got != want).then(|| format!("value-differs: compiled main() returns {got:?} but the source means {want:?}"))
+            }
+            other => Some(format!("run did not return: {other:?}")),
+        });
+    }
     if case.get("matrix").is_some() {
         return crate::ownership::replay(case);
     }
